@@ -221,6 +221,53 @@ pub fn c16d_phase_switch_full_material() {
     phase_body(4, 60, true)
 }
 
+/// C03 across the phase update (positions "loaded from text in any phase of the game" pass
+/// through it): after `update_phase`, playing a king move and taking it back restores the
+/// score, the hash and the caches.  Kings on the given squares, the white king steps to `to`.
+pub fn undo_after_phase_body(wk: usize, bk: usize, to: usize) {
+    let mut board = [spec::EMPTY; 64];
+    board[wk] = spec::code(spec::KING, false);
+    board[bk] = spec::code(spec::KING, true);
+    for sq in [18usize, 29, 43] {
+        if sq != wk && sq != bk && sq != to {
+            let x: u8 = kani::any();
+            kani::assume(x <= 12 && spec::kind_of_or(x, 99) != spec::KING);
+            board[sq] = x;
+        }
+    }
+    let white: bool = kani::any();
+    let p = spec::Pos { board, white_to_move: white, castle: [false; 4], ep: 8 };
+    let score: i16 = kani::any();
+    kani::assume(score >= -crate::h_k::SCORE_BOUND && score <= crate::h_k::SCORE_BOUND);
+    let hash: u64 = kani::any();
+    let mut game = build_game(&p, hash, score, false, 1, 0);
+    // the importer's total: score is the piece-square sum under the tables installed at that time
+    kani::assume(score == spec::score(&tables(false), &p.board));
+    game.update_phase();
+    let s0 = game.score();
+    let h0 = game.hash();
+    let (from, dest) = if white { (wk, to) } else { (bk, if bk >= 8 { bk - 8 } else { bk + 8 }) };
+    let m = real_move(&p, from, dest, spec::MK::Normal);
+    game.push(m);
+    game.pop(m);
+    assert!(game.score() == s0, "[C03] score differs after playing and taking back a king move in a position that went through the phase update");
+    assert!(game.hash() == h0, "[C03] hash differs after take-back");
+    assert!(rep_holds(&game), "[C03] per-square caches disagree with the board after take-back");
+    std::mem::forget(game);
+}
+
+#[cfg_attr(kani, kani::proof)]
+#[cfg_attr(kani, kani::unwind(9))]
+pub fn c03_undo_after_phase_update_d4() {
+    undo_after_phase_body(27, 62, 28)
+}
+
+#[cfg_attr(kani, kani::proof)]
+#[cfg_attr(kani, kani::unwind(9))]
+pub fn c03_undo_after_phase_update_e1() {
+    undo_after_phase_body(4, 60, 12)
+}
+
 #[cfg_attr(kani, kani::proof)]
 #[cfg_attr(kani, kani::unwind(9))]
 pub fn unit_witness() {
